@@ -68,10 +68,14 @@ def body_of(bi, ac=False):
         return 'a\\\\\\left[' + M(1, True) + '\\right)' + M(1, True), []
     if bi == 16:
         return M(1, ac) + '\\\\\\Big|' + M(1, True) + '\\\\ \\bigg]' + M(1, True), []
+    if bi == 17:
+        return 'x\\text{a $' + M(1) + '$ b}' + M(1, True), ['text', '$']
+    if bi == 18:
+        return 'a\\\\\\$' + M(1) + '\\\\\\%' + M(1, True) + '\\\\\\{', []
     raise AssertionError(bi)
 
 
-NBODIES = 17
+NBODIES = 19
 
 
 def find_math(soup, cls, name):
@@ -91,10 +95,14 @@ def check_region(soup, src, ki, body, inner, det, nth=0, total=1):
     SX.check(got == body and len(e.args) == 0, 'C12:body-exact', lambda: dict(det(), body=got, expected=body))
     for nm in inner:
         SX.check(len(node.find_all(nm)) >= 1, 'C12:command-inside-not-found', lambda: dict(det(), name=nm))
+    odd = [n for n in soup.descendants if isinstance(n, TexNode) and isinstance(n.expr, TexCmd) and SX.raw(n.expr.name) in ('$', '%', '{', '}', '&', '#', '_')]
+    SX.check(len(odd) == 0, 'C12:escaped-symbol-became-command', lambda: dict(det(), commands=[SX.raw(str(n)) for n in odd]))
 
 
 def c12_region(ki, bi, ci):
     begin, end, cls, name = KINDS[ki]
+    if bi == 17 and ki == 0:
+        return ('skip',)        # a $ inside $..$ closes it
     body, inner = body_of(bi, ki >= 4)
     pre, post = CTX[ci]
     src = pre + begin + body + end + post
